@@ -368,7 +368,7 @@ def dict_keys_arr(eng, p, d):
     p.assume(z3.ForAll([j, j2], z3.Implies(z3.And(j >= 0, j < j2, j2 < card),
                                            z3.Select(ordr, d, ka[j]) < z3.Select(ordr, d, ka[j2])),
                        patterns=[z3.MultiPattern(ka[j], ka[j2])]))
-    return ka, card
+    return ka, card, pos
 
 
 def h_list(eng, p, fc, node, self_v, args, kwargs):
@@ -380,8 +380,8 @@ def h_list(eng, p, fc, node, self_v, args, kwargs):
                 if cls != 'dict':
                     raise Unsupported('list(%s)' % cls)
                 from .engine_stmt import VKeys
-                ka, n = dict_keys_arr(eng, q2, v.t)
-                out.append(Res(q2, VKeys(v.t, ka, n, False)))
+                ka, n, pos = dict_keys_arr(eng, q2, v.t)
+                out.append(Res(q2, VKeys(v.t, ka, n, False, pos)))
         elif isinstance(v, VList):
             out.append(Res(q, v))
         else:
@@ -667,8 +667,8 @@ def h_dict_get(eng, p, fc, node, self_v, args, kwargs):
 def h_dict_items(eng, p, fc, node, self_v, args, kwargs):
     from .engine import Res
     from .engine_stmt import VKeys
-    ka, n = dict_keys_arr(eng, p, self_v.t)
-    return [Res(p, VKeys(self_v.t, ka, n, True))]
+    ka, n, pos = dict_keys_arr(eng, p, self_v.t)
+    return [Res(p, VKeys(self_v.t, ka, n, True, pos))]
 
 
 def h_deque_append(eng, p, fc, node, self_v, args, kwargs):
